@@ -280,12 +280,18 @@ def run_one(ctx, exe, run, seed, tier, tag, replay_ops=None):
         # the harness.  Harnesses that can meet one flush every operation line first: the trace then ends
         # with the fatal operation, which is reported to model and judge as a panic of that operation.
         fatal = rc == 2 and ('stack overflow' in out or 'fatal error' in out or 'goroutine stack exceeds' in out)
-        if not (fatal and os.path.exists(trace) and os.path.getsize(trace) > 0):
+        if not (os.path.exists(trace) and os.path.getsize(trace) > 0):
             ctx.cov['runs'].append(info)
             return d
-        with open(trace, 'a') as f:
-            f.write('> panic\n')
-        info['fatal'] = True
+        if fatal:
+            with open(trace, 'a') as f:
+                f.write('> panic\n')
+            info['fatal'] = True
+        else:
+            # the watchdog ended the run (an operation of the real code did not return; the trace ends with
+            # its "> hang") or the harness stopped for another reason: what it wrote up to there is still
+            # compared and judged - the cases before the one that hung may hold the failing input
+            info['cut_short'] = True
     drv = os.path.join(ctx.lean, '.lake', 'build', 'bin', 'mkdbdrv')
     model = os.path.join(d, 'model.txt')
     with open(trace) as fin, open(model, 'w') as fout:
